@@ -36,7 +36,7 @@ Eff(e) ==
        [] e.k = "store" -> ScAfter(StoreEff(ScBefore(m, t, e.mo), t, x, 0, e.mo, FALSE), t, e.mo)
        [] e.k \in {"xchg", "faa", "fand", "for", "fxor"} -> ScAfter(RmwEff(ScBefore(m, t, e.mo), t, x, 0, e.mo, FALSE), t, e.mo)
        [] e.k = "cas" -> IF e.ok THEN ScAfter(RmwEff(ScBefore(m, t, e.mo), t, x, 0, e.mo, FALSE), t, e.mo)
-                         ELSE CasFailEff(m, t, x, e.mo)
+                         ELSE LoadEff(m, t, x, LastIdx(m, x), e.mof)   \* a failed CAS is a load with the failure order
        [] e.k = "fence" -> FenceEff(ms, t, e.mo)
        [] e.k = "lock" -> RmwEff(m, t, x, 0, "acq", FALSE)
        [] e.k = "trylock" -> IF e.ok THEN RmwEff(m, t, x, 0, "acq", FALSE) ELSE m
